@@ -251,7 +251,18 @@ func c20Mutate(r *vu.Rng, s string) string {
 	}
 }
 
+// a DNS name with exactly one foreign byte (upper case, '_', '~', '*', '=', '@', a non-ASCII byte)
+func c20NearDNS(r *vu.Rng, size int) string {
+	s := []byte(c20DNS(r, size))
+	foreign := "_A~*=@Z\xe9+,!"
+	s[r.Intn(len(s))] = foreign[r.Intn(len(foreign))]
+	return string(s)
+}
+
 func c20Host(r *vu.Rng, size int) (string, string) {
+	if r.Chance(1, 12) {
+		return c20NearDNS(r, size), "dns~"
+	}
 	switch r.Intn(10) {
 	case 0, 1, 2, 3:
 		return c20DNS(r, size), "dns"
@@ -298,8 +309,10 @@ func c20Name(r *vu.Rng, size int) (string, string) {
 	switch r.Intn(8) {
 	case 0, 1, 2, 3:
 		return c20DNS(r, size), "dns"
-	case 4, 5:
+	case 4:
 		return c20Mutate(r, c20DNS(r, size)), "dns/mut"
+	case 5:
+		return c20NearDNS(r, size), "dns~"
 	case 6:
 		s, _ := c20Host(r, size)
 		return s, "host"
@@ -456,7 +469,7 @@ func c20RunStatic(a c20Args) int {
 func TestVerifC20(t *testing.T) {
 	out := vu.Open("C20")
 	rng := vu.NewRng(out.Seed ^ 0xC20)
-	per := out.Count(1500, 60000)
+	per := out.Count(1500, 20000)
 
 	// silence the start-up log lines of RunE; make sure the run cannot go past the Pod configuration
 	if devnull, err := os.OpenFile(os.DevNull, os.O_WRONLY, 0); err == nil {
@@ -560,7 +573,7 @@ func TestVerifC20(t *testing.T) {
 	}
 
 	// accepted values rendered into mgmt.conf by the real generator
-	nMgmt := out.Count(700, 20000)
+	nMgmt := out.Count(700, 8000)
 	for i := 0; i < nMgmt; i++ {
 		r := rng.Fork()
 		sz := size(i, nMgmt)
@@ -591,7 +604,7 @@ func TestVerifC20(t *testing.T) {
 	}
 
 	// whole command lines through the real static-mode command
-	nCmd := out.Count(700, 20000)
+	nCmd := out.Count(700, 8000)
 	optStr := func(p *string) string {
 		if p == nil {
 			return "None"
@@ -668,7 +681,8 @@ func TestVerifC20(t *testing.T) {
 		term := vu.App("IStatic", "{| "+strings.Join([]string{
 			"a_ctlr := " + optStr(a.ctlr), "a_class := " + optStr(a.class), "a_gateway := " + optStr(a.gateway),
 			"a_config := " + optStr(a.config), "a_service := " + optStr(a.service),
-			"a_metrics_port := " + optStr(a.mport), "a_health_port := " + optStr(a.hport), "a_lock := " + optStr(a.lock),
+			"a_metrics_port := " + optStr(a.mport), "a_health_port := " + optStr(a.hport),
+			"a_metrics_disable := " + vu.Bool(a.mdisable), "a_health_disable := " + vu.Bool(a.hdisable), "a_lock := " + optStr(a.lock),
 			"a_plus := " + vu.Bool(a.plus), "a_secret := " + optStr(a.secret), "a_endpoint := " + optStr(a.endpoint),
 			"a_resolver := " + optStr(a.resolver), "a_client_secret := " + optStr(a.csecret),
 			"a_ca_secret := " + optStr(a.casecret), "a_telemetry_endpoint := " + vu.App("lit", vu.Str(a.telemetry)),
